@@ -855,7 +855,8 @@ func tamperRun(c *Ctx, sp tamperSpec, fs []fault, count bool, api string) tamper
 /* ---------------------------------------------------------------- gcmformat (C12) */
 
 func runGcmFormat(c *Ctx) error {
-	c.Res.Rule = "send histories: cleartext prelude of every shape (none, one way, both ways, empty frames), SetSymmetricKey on both ends, interleaved sends in both directions (sizes incl. 0), secrets sent with encryption toggled off, counters started near 2^32 through NewStreamWithCryptoState; every emitted frame is opened by the independent refcodec (nonce = base IV + counter in the leading word, IV on first frame only, AAD = [digests] header) and refcodec-built frames are fed to the real receiver; distinct by op-sequence hash; non-trivial = ≥1 sealed frame"
+	drawnIVs = nil
+	c.Res.Rule = "all base IVs drawn by SetSymmetricKey during the run pairwise distinct; send histories: cleartext prelude of every shape (none, one way, both ways, empty frames), SetSymmetricKey on both ends, interleaved sends in both directions (sizes incl. 0), secrets sent with encryption toggled off, counters started near 2^32 through NewStreamWithCryptoState; every emitted frame is opened by the independent refcodec (nonce = base IV + counter in the leading word, IV on first frame only, AAD = [digests] header) and refcodec-built frames are fed to the real receiver; distinct by op-sequence hash; non-trivial = ≥1 sealed frame"
 	var cases []Case
 	n := c.Pick(500, 8000)
 	for i := 0; i < n; i++ {
@@ -867,6 +868,18 @@ func runGcmFormat(c *Ctx) error {
 	for i := 0; i < c.Pick(150, 2000); i++ {
 		cases = append(cases, gcmRefSender(c, i))
 	}
+	// "the base IV (fresh and distinct for every direction and session)": every IV drawn by a
+	// SetSymmetricKey call in this run — both directions of every session — differs from every other
+	seenIV := map[[16]byte]string{}
+	for _, d := range drawnIVs {
+		if prev, dup := seenIV[d.iv]; dup {
+			c.Violate(Violation{Property: "C12", Key: "C12:base-iv-repeated", What: "two key installations (two directions of a session, or two sessions) used the same base IV: with one key per session this repeats key/nonce pairs",
+				Ops: []string{"# " + prev, "# " + d.where}, Expected: "a fresh random IV per SetSymmetricKey call", Observed: fmt.Sprintf("IV %x twice", d.iv)})
+			break
+		}
+		seenIV[d.iv] = d.where
+	}
+	c.Count(fmt.Sprintf("base-ivs-drawn:%d-all-distinct:%v", len(drawnIVs)/100*100, len(seenIV) == len(drawnIVs)))
 	return diffBatch(c, "stream", cases, nil)
 }
 
